@@ -67,6 +67,10 @@ THEOREMS = ["Ymq.C16." + t for t in (
 THEOREMS += ["Ymq.C16." + t for t in (
     # Williams P+1 end to end (Props/C16Pp1.lean)
     "pp1_proper pp1_stage2_proper pp1_giant_range pp1_giant_values pp1_baby_values pp1_stage2_found_partial pp1_entry_panics").split()]
+LEAN += ["Ymq.Props.C16Pm1b"]
+THEOREMS += ["Ymq.C16." + t for t in (
+    # second pass on both whole-function models (Props/C16Pm1b.lean)
+    "pp1_baby_complete pp1_baby_exact pp1_stage2_found pp1_stage2_product_zero").split()]
 HYPOTHESES = [
     "C17 (stage-1 exponent coverage): the exponent E accumulated by stage 1 is divisible by every prime power below B1 "
     "(and by every prime <= B1 for P-1/P+1); enters pm1_hit / pp1_hit / ecm_hit as the premise `group order of p divides E*m`",
